@@ -11,7 +11,8 @@ def handle (hdr : List String) (body : List String) : List String :=
   | ["hll"] => runMergeable hllOps body
   | ["topk"] => runTopK body
   | ["reservoir"] => runRes body
-  | ["merkle"] => runMerkle body
+  | ["merkle"] => runMerkle "current" body
+  | ["merkle", variant] => runMerkle variant body
   | ["tdigest"] => runTd body
   | ["judge-bloom"] => judgeMergeable "bloom" (some bloomLower) body
   | ["judge-cms"] => judgeMergeable "cms" (some cmsLower) body
